@@ -536,6 +536,11 @@ def _exits(stmts):
         return True
     if isinstance(last, ast.If) and last.orelse:
         return _exits(last.body) and _exits(last.orelse)
+    if isinstance(last, ast.Try):
+        # completes normally only if the body (then the else part) or a handler does
+        if last.finalbody and _exits(last.finalbody):
+            return True
+        return (_exits(last.body) or _exits(last.orelse)) and all(_exits(h.body) for h in last.handlers)
     return False
 
 
@@ -1078,6 +1083,29 @@ def _hoist_common_tail(s, res):
     return s, moved + list(res)
 
 
+_TRY_DEPTH = [0]
+
+
+def _hoist_common_head(s):
+    """`if t: V = a; A else: V = a; B`  ==  `V = a; if t: A else: B`  for a plain local V, `a` a name or constant, t
+    not mentioning V (outside try / with: when t raises nothing can look at V afterwards)"""
+    moved = []
+    while s.body and s.orelse and (len(s.body) > 1 or len(s.orelse) > 1) and _TRY_DEPTH[0] == 0:
+        a, b = s.body[0], s.orelse[0]
+        if not (isinstance(a, ast.Assign) and len(a.targets) == 1 and isinstance(a.targets[0], ast.Name) and isinstance(a.value, (ast.Name, ast.Constant)) and _dump(a) == _dump(b)):
+            break
+        tgt = a.targets[0].id
+        if any(isinstance(n, ast.Name) and n.id == tgt for n in ast.walk(s.test)) or any(isinstance(n, (ast.NamedExpr, ast.Lambda, ast.Await, ast.Yield, ast.YieldFrom)) for n in ast.walk(s.test)):
+            break
+        moved.append(s.body.pop(0))
+        s.orelse.pop(0)
+    if not s.body:
+        s.body = [_loc(ast.Pass(), s)]
+    if not s.orelse and moved:
+        pass
+    return moved, s
+
+
 def canon_block(stmts):
     """bottom-up: guard clauses become if/else nests; negated tests are swapped"""
     out = []
@@ -1131,7 +1159,11 @@ def canon_block(stmts):
     for k, s in enumerate(res):
         if isinstance(s, ast.If) and s.orelse:
             s, tail = _hoist_common_tail(s, [])
-            hoisted.append(swap_if(s) if tail else s)
+            head = []
+            if s.orelse:
+                head, s = _hoist_common_head(s)
+            hoisted.extend(head)
+            hoisted.append(swap_if(s) if (tail or head) else s)
             hoisted.extend(tail)
         else:
             hoisted.append(s)
@@ -2136,13 +2168,21 @@ def _canon_stmt(s):
         s.body = canon_block(_strip_tail_continue(s.body))
         s.orelse = canon_block(s.orelse)
     elif isinstance(s, (ast.With, ast.AsyncWith)):
-        s.body = canon_block(s.body)
+        _TRY_DEPTH[0] += 1
+        try:
+            s.body = canon_block(s.body)
+        finally:
+            _TRY_DEPTH[0] -= 1
     elif isinstance(s, ast.Try):
-        s.body = canon_block(s.body)
-        for h in s.handlers:
-            h.body = canon_block(h.body)
-        s.orelse = canon_block(s.orelse)
-        s.finalbody = canon_block(s.finalbody)
+        _TRY_DEPTH[0] += 1
+        try:
+            s.body = canon_block(s.body)
+            for h in s.handlers:
+                h.body = canon_block(h.body)
+            s.orelse = canon_block(s.orelse)
+            s.finalbody = canon_block(s.finalbody)
+        finally:
+            _TRY_DEPTH[0] -= 1
         # `try: A except ..: H else: B` with B unable to raise (returns / assignments of names and constants, tests of
         # plain names)  ==  `try: A; B except ..: H`
         import builtins as _bi
